@@ -115,9 +115,9 @@ class Wiring:
             loops = []
             for head, body_paths in rec['loops']:
                 # `for x in [a, b, c]: self.out.write(bytes([len(x), *[v.name for v in x]]))`
-                if head[0] != 'for' or head[2][0] not in ('list', 'tuple'):
+                elems = literal_elems(head[2]) if head[0] == 'for' else None
+                if elems is None:
                     raise AnalysisError(f'{ci.name}.{meth}: loop over a non-literal collection in the serializer')
-                elems = head[2][1]
                 bp = [b for b in body_paths if b.end[0] != 'raise']
                 if len(bp) != 1:
                     raise AnalysisError(f'{ci.name}.{meth}: branching loop body in the serializer')
@@ -175,8 +175,48 @@ def _subst(v, old, new):
     if v == old:
         return new
     if isinstance(v, tuple):
-        return tuple(_subst(x, old, new) if isinstance(x, tuple) else x for x in v)
+        out = tuple(_subst(x, old, new) if isinstance(x, tuple) else x for x in v)
+        # the i-th component of a tuple display is that component
+        if len(out) == 3 and out[0] == 'item' and isinstance(out[1], tuple) and out[1] and out[1][0] in ('tuple', 'list') \
+                and isinstance(out[2], int) and -len(out[1][1]) <= out[2] < len(out[1][1]):
+            return out[1][1][out[2]]
+        return out
     return v
+
+
+def literal_elems(v, depth=0):
+    """the elements of a sequence value that is spelled out: a display, a comprehension over one (one generator, a plain name as
+    target, no filter), `zip` of such sequences of equal length (pairs as tuple displays), `list` / `tuple` / `reversed` of one.
+    -> list of values or None"""
+    if depth > 6 or not isinstance(v, tuple) or not v:
+        return None
+    if v[0] in ('list', 'tuple'):
+        return None if any(x[0] == 'star' for x in v[1]) else list(v[1])
+    if v[0] == 'comp' and v[1] in ('listcomp', 'gen') and len(v[3]) == 1 and not v[3][0][2] and ',' not in v[3][0][0] and '(' not in v[3][0][0]:
+        tgt, it, _ifs = v[3][0]
+        inner = literal_elems(it, depth + 1)
+        if inner is None:
+            return None
+        return [_subst(v[2], ('bound', tgt), x) for x in inner]
+    if v[0] == 'sub' and isinstance(v[2], tuple) and v[2] and v[2][0] == 'slice':
+        inner = literal_elems(v[1], depth + 1)
+        b = [None if x is None else (x[1] if x[0] == 'const' and isinstance(x[1], int) else ...) for x in v[2][1:4]]
+        return None if inner is None or ... in b else inner[slice(*b)]
+    if v[0] == 'call' and v[1][0] == 'name' and len(v) >= 3:
+        name, args = v[1][1], v[2]
+        if name in ('list', 'tuple') and len(args) == 1:
+            return literal_elems(args[0], depth + 1)
+        if name == 'reversed' and len(args) == 1:
+            inner = literal_elems(args[0], depth + 1)
+            return None if inner is None else inner[::-1]
+        if name == 'zip' and args:
+            seqs = [literal_elems(a, depth + 1) for a in args]
+            if any(q is None for q in seqs):
+                return None
+            if len({len(q) for q in seqs}) != 1 and any(k == 'strict' and x == ('const', True) for k, x in (v[3] if len(v) > 3 else ())):
+                return None                           # raises at run time
+            return [('tuple', tuple(t)) for t in zip(*seqs)]
+    return None
 
 
 def _operand(e):
